@@ -3,7 +3,9 @@ use serde::Serialize;
 use marrow::array::Array;
 
 use crate::internal::{
-    error::Result, schema::SerdeArrowSchema, serialization::OuterSequenceBuilder,
+    error::{fail, Result},
+    schema::SerdeArrowSchema,
+    serialization::OuterSequenceBuilder,
 };
 
 /// Construct arrays by pushing individual records
@@ -54,6 +56,9 @@ pub struct ArrayBuilder {
     pub(crate) builder: OuterSequenceBuilder,
     #[allow(unused)]
     pub(crate) schema: SerdeArrowSchema,
+    /// Set while an operation is in flight and left set when it fails: the nested builders may
+    /// then hold a partial record and must not be used to build arrays
+    poisoned: bool,
 }
 
 impl ArrayBuilder {
@@ -62,6 +67,7 @@ impl ArrayBuilder {
         Ok(Self {
             builder: OuterSequenceBuilder::new(&schema)?,
             schema,
+            poisoned: false,
         })
     }
 }
@@ -75,22 +81,51 @@ impl std::fmt::Debug for ArrayBuilder {
 impl ArrayBuilder {
     /// Add a single record to the arrays
     ///
+    /// If this call fails, the builder may hold a partial record: all further calls to
+    /// `push`, `extend` and the `to_*` methods will fail
+    ///
     pub fn push<T: Serialize>(&mut self, item: T) -> Result<()> {
-        self.builder.push(item)
+        self.guarded(|this| this.builder.push(item))
     }
 
     /// Add multiple records to the arrays
     ///
+    /// If this call fails, the builder may hold partial records: all further calls to `push`,
+    /// `extend` and the `to_*` methods will fail
+    ///
     pub fn extend<T: Serialize>(&mut self, items: T) -> Result<()> {
-        self.builder.extend(items)
+        self.guarded(|this| this.builder.extend(items))
     }
 
     pub(crate) fn build_arrays(&mut self) -> Result<Vec<Array>> {
-        let mut arrays = Vec::new();
-        for field in self.builder.take_records()? {
-            arrays.push(field.into_array()?);
+        self.guarded(|this| {
+            let mut arrays = Vec::new();
+            for field in this.builder.take_records()? {
+                arrays.push(field.into_array()?);
+            }
+            Ok(arrays)
+        })
+    }
+
+    /// Fail if an earlier operation on this builder failed
+    pub(crate) fn ensure_consistent(&self) -> Result<()> {
+        if self.poisoned {
+            fail!(
+                "The ArrayBuilder is in an inconsistent state after an earlier error: \
+                 it may hold partial records and cannot be used any more"
+            );
         }
-        Ok(arrays)
+        Ok(())
+    }
+
+    /// Run an operation that modifies the nested builders: refuse it after an earlier failure and
+    /// keep the builder marked as inconsistent unless the operation succeeds (also if it unwinds)
+    fn guarded<T>(&mut self, op: impl FnOnce(&mut Self) -> Result<T>) -> Result<T> {
+        self.ensure_consistent()?;
+        self.poisoned = true;
+        let res = op(self)?;
+        self.poisoned = false;
+        Ok(res)
     }
 }
 
